@@ -7,6 +7,7 @@ import (
 
 	"github.com/hydraide/hydraide/app/core/hydra/swamp"
 	"github.com/hydraide/hydraide/app/core/hydra/swamp/treasure"
+	"github.com/hydraide/hydraide/app/verifhook"
 	hydrapb "github.com/hydraide/hydraide/sdk/go/hydraidego/v3/hydraidepbgo"
 	"google.golang.org/grpc/codes"
 	"google.golang.org/grpc/status"
@@ -128,6 +129,7 @@ func shiftMatchingOneSwamp(ctx context.Context, g Gateway, in *hydrapb.ShiftMatc
 	if predErr != nil {
 		return nil, false, status.Error(codes.InvalidArgument, predErr.Error())
 	}
+	verifhook.Point("gateway.shiftMatching.predicateBuilt")
 
 	treasures, capReached, err := swampInterface.CloneAndDeleteMatchingTreasures(beaconType, order, howMany, predicate, capPred, capMax)
 	if err != nil {
